@@ -68,6 +68,8 @@ def run(ctx):
             gen.FORCE_UDC = None
     for i in range(3 if q else 20):      # Samplers (boundary slots, long envelopes, embedded effect)
         sources.append(("gen-sampler%d.sunsynth" % i, api.Synth(gen.rand_module(rnd, cl["Sampler"], spec, depth=1, in_project=False)).read()))
+    for nm, obj in gen.boundary_sources(spec):       # deterministic boundary values (independent of the random stream)
+        sources.append((nm, obj.read()))
     nfix = 0
     for name, data in sources:
         base = tlv.to_json_nested(data)
@@ -145,6 +147,29 @@ def run(ctx):
                     ed = base[:last + 1] + [{"id": "SEND", "data": [], "isn": False, "nested": []}] * extra + base[last + 1:]
                     traces.append({"id": "%s.trailing-empty+%d" % (name, extra), "events": [fmt.load_event(tlv.from_json_nested(ed), spec)]})
                     ctx.count_case((name, "trailing-empty", extra))
+        # (ii-j) a data block with a number the module type does not use (newer SunVox versions add such blocks): CHNM/CHDT/CHFF/CHFR
+        #        groups in front of a module section's SEND and in front of its first known block; the spec's reader ignores them
+        secs_end = [(pth, i) for pth, i in positions(base) if i >= 1 and at(base, pth)[i - 1]["id"] == "SEND"
+                    and any(c["id"] == "STYP" for c in at(base, pth)[:i - 1])]
+        if q:
+            rnd.shuffle(secs_end)
+            secs_end = secs_end[:3] if not name.startswith("bnd") else secs_end[:8]
+        for k, (pth, i) in enumerate(secs_end):
+            lst = at(base, pth)
+            start = max([j for j in range(i - 1) if lst[j]["id"] == "SFFF"] or [0])
+            firstblk = next((j for j in range(start, i - 1) if lst[j]["id"] == "CHNM"), i - 1)
+            styp = bytes(next(c["data"] for c in lst[start:i - 1] if c["id"] == "STYP")).split(b"\0")[0]
+            unused = {b"MetaModule": [3, 4, 5, 6, 7], b"Sampler": [0x109, 0x10B, 0x200, 0x7000], b"MultiCtl": [2, 3, 5, 7, 0x7000]}.get(styp, [4, 5, 7, 0x7000, 6])
+            for where, num in ((i - 1, unused[k % len(unused)]), (firstblk, unused[(k + 1) % len(unused)])):
+                ed = copy.deepcopy(base)
+                grp = [{"id": "CHNM", "data": list(num.to_bytes(4, "little")), "isn": False, "nested": []},
+                       {"id": "CHDT", "data": [rnd.randrange(256) for _ in range(rnd.choice([0, 6, 32, 514]))], "isn": False, "nested": []},
+                       {"id": "CHFF", "data": [rnd.choice([0, 1, 5]), 0, 0, 0], "isn": False, "nested": []},
+                       {"id": "CHFR", "data": [0x44, 0xAC, 0, 0], "isn": False, "nested": []}]
+                at(ed, pth)[where:where] = grp
+                traces.append({"id": "%s+block%d@%s:%d" % (name, num, "/".join(map(str, pth)), where),
+                               "events": [fmt.load_event(tlv.from_json_nested(ed), spec)]})
+                ctx.count_case((name, "unknown-block", pth, where, num))
         # (ii-i) the two version chunks: BVER in front of VERS, BVER alone dropped, both dropped
         iv_ = [j for j, c in enumerate(base) if c["id"] == "VERS"][:1]
         ib_ = [j for j, c in enumerate(base) if c["id"] == "BVER"][:1]
